@@ -1562,6 +1562,9 @@ class PooledClient:
         with self.client_pool.get_and_release(destroy_on_fail=True) as client:
             try:
                 return client.get(key, default)
+            except MemcacheIllegalInputError:
+                # an illegal key is not a server failure: always reported
+                raise
             except Exception:
                 if self.ignore_exc:
                     return default
@@ -1572,6 +1575,9 @@ class PooledClient:
         with self.client_pool.get_and_release(destroy_on_fail=True) as client:
             try:
                 return client.gat(key, expire, default)
+            except MemcacheIllegalInputError:
+                # an illegal key is not a server failure: always reported
+                raise
             except Exception:
                 if self.ignore_exc:
                     return default
@@ -1588,6 +1594,9 @@ class PooledClient:
         with self.client_pool.get_and_release(destroy_on_fail=True) as client:
             try:
                 return client.gats(key, expire, default, cas_default)
+            except MemcacheIllegalInputError:
+                # an illegal key is not a server failure: always reported
+                raise
             except Exception:
                 if self.ignore_exc:
                     return (default, cas_default)
@@ -1598,6 +1607,9 @@ class PooledClient:
         with self.client_pool.get_and_release(destroy_on_fail=True) as client:
             try:
                 return client.get_many(keys)
+            except MemcacheIllegalInputError:
+                # an illegal key is not a server failure: always reported
+                raise
             except Exception:
                 if self.ignore_exc:
                     return {}
@@ -1612,6 +1624,9 @@ class PooledClient:
         with self.client_pool.get_and_release(destroy_on_fail=True) as client:
             try:
                 return client.gets(key, default, cas_default)
+            except MemcacheIllegalInputError:
+                # an illegal key is not a server failure: always reported
+                raise
             except Exception:
                 if self.ignore_exc:
                     return (default, cas_default)
@@ -1622,6 +1637,9 @@ class PooledClient:
         with self.client_pool.get_and_release(destroy_on_fail=True) as client:
             try:
                 return client.gets_many(keys)
+            except MemcacheIllegalInputError:
+                # an illegal key is not a server failure: always reported
+                raise
             except Exception:
                 if self.ignore_exc:
                     return {}
